@@ -85,8 +85,11 @@ Definition check_resid (c : c01case) : bool :=
   let scales := map (fun t => dadd (dadd (dabsdot (fst t) W2Bb) (dabsdot (snd t) Eb)) (dabsdot (fst t) Wpd)) (combine Bt Et) in
   let scale := dmaxl scales in
   Nat.eqb (length b) m &&
-  Z.leb (c_tole c) (-12) &&
-  forallb (fun t => dleb (dabs (dsub (fst t) (snd t))) (dadd (dmul (mkdy 1 (c_tole c)) scale) tiny)) (combine lhs rhs).
+  (* c_tole = 0 marks an iteration whose system [WB; E] is so ill-conditioned (64 eps cond^2 > 2^-12: saturated means, n <= m) that no
+     backward-error statement distinguishes a right update from a wrong one in binary64: the solve is then not judged (counted by the harness) *)
+  (Z.eqb (c_tole c) 0 ||
+   (Z.leb (c_tole c) (-12) &&
+    forallb (fun t => dleb (dabs (dsub (fst t) (snd t))) (dadd (dmul (mkdy 1 (c_tole c)) scale) tiny)) (combine lhs rhs))).
 
 Definition check_shapes (c : c01case) : bool :=
   let n := length (c_B c) in
